@@ -656,10 +656,16 @@ def d4_check_response(ctx, idx):
             out = [k for k, v in env.items() if pred(v)]
             return out[0] if len(out) == 1 else None
         ANS = named(lambda v: nf.match("answer['expect']", v) is not None)
-        STU = named(lambda v: cm.is_call_to(v, 'split') and isinstance(v.func, ast.Attribute) and cm.is_name(v.func.value, 'student_input'))
+        STU = named(lambda v: _split_form(v, 'student_input') is not None)
         if ANS is None or STU is None:
             raise AnalysisError('check_response: locals for the expected list / the split submission not found')
         split = env[STU]
+        while not (isinstance(split, ast.Call) and isinstance(split.func, ast.Attribute) and split.func.attr == 'split'):
+            inner_ = [n for n in ast.walk(split) if n is not split and isinstance(n, ast.Call) and isinstance(n.func, ast.Attribute)
+                      and n.func.attr == 'split' and cm.is_name(n.func.value, 'student_input')]
+            if not inner_:
+                raise AnalysisError('check_response: split call not found')
+            split = inner_[0]
         construct = 'check_response: split'
         if len(split.args) == 1 and lib.is_config(split.args[0], 'delimiter'):
             r.ok(construct, "student_input.split(config['delimiter'])", lib.loc(fi, split))
@@ -1107,14 +1113,88 @@ def d5_padding(ctx, idx):
                 r.undecided(construct, '`%s`' % short(vv), where)
 
 
+
+def _split_form(expr, text):
+    """(delimiter expr, per-item transformation with the item named `_E` or None, filter) if expr is `text.split(d)` or a
+    comprehension `[f(e) for e in text.split(d)]`; else None."""
+    def plain(e):
+        return isinstance(e, ast.Call) and isinstance(e.func, ast.Attribute) and e.func.attr == 'split' and cm.is_name(e.func.value, text)
+    if plain(expr):
+        return (expr.args[0] if expr.args else None, None, None)
+    if isinstance(expr, (ast.ListComp, ast.GeneratorExp)) and len(expr.generators) == 1 and plain(expr.generators[0].iter) \
+            and isinstance(expr.generators[0].target, ast.Name):
+        g = expr.generators[0]
+        env = {g.target.id: ast.Name(id='_E', ctx=ast.Load())}
+        tr = None if cm.is_name(expr.elt, g.target.id) else nf.canon(nf.subst(expr.elt, env))
+        flt = [nf.canon(nf.subst(c, env)) for c in g.ifs] or None
+        return (g.iter.args[0] if g.iter.args else None, tr, flt)
+    if isinstance(expr, ast.Call) and nf.callee_name(expr) in ('list', 'tuple') and len(expr.args) == 1:
+        return _split_form(expr.args[0], text)
+    if isinstance(expr, ast.Call) and nf.callee_name(expr) == 'map' and len(expr.args) == 2 and plain(expr.args[1]):
+        f = expr.args[0]
+        tr = nf.canon(ast.Call(func=f, args=[ast.Name(id='_E', ctx=ast.Load())], keywords=[]))
+        m = nf.match('str.strip(_E)', tr)
+        if m is not None:
+            tr = nf.pat('_E.strip()')
+        return (expr.args[1].args[0] if expr.args[1].args else None, tr, None)
+    return None
+
+
+def _split_symmetry(r, idx):
+    """The expected string (infer_from_expect) and the submission (check_response) must be cut into items by the same function
+    of (text, delimiter): an extra per-item transformation or filter on one side only makes the string form of an answer
+    grade differently from the equivalent list form."""
+    construct = 'SingleListGrader: expected string and submission are split alike'
+    inf = idx.func(SLG + '.infer_from_expect')
+    chk = idx.func(SLG + '.check_response')
+    forms = {}
+    for fi, text in ((inf, 'expect'), (chk, 'student_input')):
+        cands = []
+        for n in walk_own(fi.node):
+            if isinstance(n, ast.Assign):
+                f = _split_form(n.value, text)
+                if f is not None:
+                    cands.append((n, f))
+        if len(cands) != 1:
+            raise AnalysisError('%s: expected one split of `%s`, found %d' % (fi.qualname, text, len(cands)))
+        forms[text] = (fi, cands[0][0], cands[0][1])
+    (fa, na, (da, ta, fla)), (fb, nb, (db, tb, flb)) = forms['expect'], forms['student_input']
+
+    def same(x, y):
+        if x is None or y is None:
+            return x is None and y is None
+        if isinstance(x, list) or isinstance(y, list):
+            return isinstance(x, list) and isinstance(y, list) and len(x) == len(y) and all(nf.equal(p, q) for p, q in zip(x, y))
+        return nf.equal(x, y)
+    dl_ok = da is not None and db is not None and lib.is_config(da, 'delimiter') and lib.is_config(db, 'delimiter')
+    if not dl_ok and not same(nf.canon(da) if da is not None else None, nf.canon(db) if db is not None else None):
+        return      # delimiter differences are reported by the split obligations of D4 / D6
+    if same(ta, tb) and same(fla, flb):
+        r.ok(construct, 'both are text.split(delimiter)%s' % ('' if ta is None else ' with the same per-item transformation `%s`' % short(ta)),
+             lib.loc(fa, na))
+        return
+    side, node, fi_, t_, other = ('expected string', na, fa, ta, 'submission') if (ta is not None or fla) and tb is None and not flb else \
+        ('submission', nb, fb, tb, 'expected string') if (tb is not None or flb) and ta is None and not fla else (None, na, fa, None, None)
+    if side is None:
+        r.violation(construct, 'the expected string is cut with `%s` but the submission with `%s`: the two sides no longer produce the '
+                    'same items from the same text' % (short(na.value), short(nb.value)), lib.loc(fa, na))
+    else:
+        r.violation(construct, 'only the %s is post-processed after splitting (`%s`), the %s is not: an answer written as a string no '
+                    'longer grades like the same answer written as a list (e.g. the blanks after a delimiter stay in the %s item but '
+                    'are removed from the other side), which shows with any subgrader that is sensitive to them'
+                    % (side, short(node.value), other, 'submitted' if side == 'expected string' else 'expected'), lib.loc(fi_, node),
+                    expected='the same split on both sides', found=short(node.value))
+
+
 # ------------------------------------------------------------------------------- D6
 def d6_infer(ctx, idx):
-    r = ctx.rule('D6.INFER', "string answers are split on the grader's own delimiter, nested lists by the nested grader", floor=5)
+    r = ctx.rule('D6.INFER', "string answers are split on the grader's own delimiter, nested lists by the nested grader; the same split as for the submission", floor=6)
     with r:
         fi = idx.func(SLG + '.infer_from_expect')
         selfn = fi.params[0]
         if fi.params[1:] != ['expect']:
             raise AnalysisError('infer_from_expect: parameters changed')
+        _split_symmetry(r, idx)
         splits = [c for c in lib.calls_named(fi.node, 'split') if isinstance(c.func, ast.Attribute) and cm.is_name(c.func.value, 'expect')]
         if len(splits) != 1:
             raise AnalysisError('infer_from_expect: expect.split(...) not found')
@@ -1223,7 +1303,7 @@ def d7_solver(ctx, idx):
     reference (C06.D2 INIT, C06.D3 RESULT, C06.D4 STEPS) here as well, so a change of the solver is reported under this id."""
     from . import c06
     r = ctx.rule('D7.SOLVER', 'the assignment solver equals the reviewed Munkres reference (state re-initialised per solve, '
-                 'result extraction, step table, per-cell step effects) -- a pin to the reference, not a proof of optimality', floor=77)
+                 'result extraction, step table, per-cell step effects) -- a pin to the reference, not a proof of optimality', floor=78)
     with r:
         c06.solver_rules(r, idx)
 
@@ -1340,6 +1420,9 @@ MUTANTS = [
     Mutant('matching-cost-is-credit', LG, "        return 1 - result['grade_decimal']", "        return result['grade_decimal']", 'D8'),
     Mutant('matching-matrix-transposed', LG, "[[check(a, i) for a in answers] for i in student_list]", "[[check(a, i) for i in student_list] for a in answers]", 'D8'),
     Mutant('matching-readback-transposed', LG, "[result_matrix[i][j] for i, j in indexes]", "[result_matrix[j][i] for i, j in indexes]", 'D8'),
+    Mutant('expect-items-stripped-only', LG, "        answers = expect.split(self.config['delimiter'])", "        answers = [entry.strip() for entry in expect.split(self.config['delimiter'])]", 'D6'),
+    Mutant('submission-items-stripped-only', LG, "        student_list = student_input.split(self.config['delimiter'])", "        student_list = [item.strip() for item in student_input.split(self.config['delimiter'])]", 'D6'),
+    Mutant('expect-empty-items-dropped', LG, "        answers = expect.split(self.config['delimiter'])", "        answers = [entry for entry in expect.split(self.config['delimiter']) if entry]", 'D6'),
     # D6
     Mutant('infer-literal-delimiter', LG, "        answers = expect.split(self.config['delimiter'])", "        answers = expect.split(',')", 'D6'),
     Mutant('infer-recursion-on-self', LG, "answers[idx] = self.config['subgrader'].infer_from_expect(entry)", "answers[idx] = self.infer_from_expect(entry)", 'D6'),
@@ -1370,6 +1453,7 @@ BENIGN = [
     Benign('blank-test-isspace', LG, "                         if item.strip() == '']", "                         if item == '' or item.isspace()]"),
     Benign('failure-result-hoisted', LG, "def padded_check(check):\n    \"\"\"Wraps a check function to reject _AutomaticFailure\"\"\"\n    def _check(ans, inp):\n        if isinstance(ans, _AutomaticFailure) or isinstance(inp, _AutomaticFailure):\n            return {'ok': False, 'msg': '', 'grade_decimal': 0, 'all_awarded': False}",
            "_FAILED = {'ok': False, 'msg': '', 'grade_decimal': 0, 'all_awarded': False}\n\ndef padded_check(check):\n    \"\"\"Wraps a check function to reject _AutomaticFailure\"\"\"\n    def _check(ans, inp):\n        if isinstance(ans, _AutomaticFailure) or isinstance(inp, _AutomaticFailure):\n            return dict(_FAILED)"),
+    Benign('expect-split-through-list', LG, "        answers = expect.split(self.config['delimiter'])", "        answers = list(expect.split(self.config['delimiter']))"),
     Benign('all-awarded-list-form', LG, "all(item['grade_decimal'] > 0 for item in grade_list)", "all([item['grade_decimal'] > 0 for item in grade_list])"),
     Benign('message-guard-nested', LG, "        if all_awarded and msg != '':\n            result['msg'] = msg if result['msg'] == '' else result['msg'] + '\\n' + msg",
            "        if all_awarded:\n            if msg != '':\n                result['msg'] = msg if result['msg'] == '' else result['msg'] + '\\n' + msg"),
